@@ -315,7 +315,7 @@ def run(F, rep, tier):
             if hsize is not None:
                 rep.check(total(hw) == hsize, "C07-R2", "header:size-constant", "ByteCodeHeader::write_to writes %d bytes but HEADER_SIZE = %s" % (total(hw), hsize), sample={"written": total(hw), "HEADER_SIZE": hsize})
     run_r5(F, rep, crate, cg)
-    run_r6(F, rep, crate)
+    run_r6(F, rep, crate, tier)
 
 
 def _int_eval(e):
@@ -438,7 +438,7 @@ def run_r5(F, rep, crate, cg):
     rep.floor("C07-R5", "truncation guards compared with instruction sizes", n, 5)
 
 
-def run_r6(F, rep, crate):
+def run_r6(F, rep, crate, tier="quick"):
     """C07-R6: the loader's alignment test accepts every alignment the compiler hands out"""
     from lib.facts import find, walk, is_node, path_of, render, render_pat, last_seg
     from lib.minieval import ev, NoEval
@@ -476,7 +476,7 @@ def run_r6(F, rep, crate):
     n = 0
     try:
         for a in sorted(aligns):
-            for off in (0, a, 3 * a):
+            for off in ((0, a, 3 * a) if tier != "thorough" else [k * a for k in range(0, 64)]):
                 env = dict(consts)
                 env[params[0]] = off
                 env[params[1]] = a
